@@ -87,6 +87,36 @@ CLAIMED = {
              "checks the token with an independent computation. Modelled not verified: ws_stream.py.",
         technique="Coq proof (case analysis / symbolic execution of the monadic model) + in-Coq differential correspondence",
     ),
+    "C01": dict(
+        text="Coq theorems: the scope is exactly the split / percent-decoded / copied request (make_scope_spec, unquote laws), exactly one application per request, every body event becomes one message with the same bytes and EndBody the single final one, nothing after closure, a request is only parsed from h11's IDLE state. Tied to the code by protocol-level and stream-level differential execution and an end-to-end oracle comparing what each application received with what the client sent, for every framing, k-way splits, queue sizes and random schedules.",
+        design="7/C01",
+        note="Trusted: Coq kernel + vm_compute, translate/py2coq.py, harness (h11rig.py with library proxies, h11gen.py, http1e2e.py, streams.py, sched.py). h11's parser/serialiser are not modelled (received events and returned bytes are recorded oracle values); h11's state machine is modelled (LibH11.v, a port of h11/_state.py) and cross-checked against the real library after every call. HTTP/2 and both-worker coverage of this property comes from the C08/C09/C16 rigs. Open known finding F14 (application queue full at closure) is reported as KNOWN-FINDING.",
+        technique="Coq proof (symbolic execution of the monadic models, exhaustive vm_compute over the h11 state space) + in-Coq differential correspondence",
+    ),
+    "C02": dict(
+        text='Coq theorems: bodies omitted exactly for HEAD/1xx/204/304, every run the ASGI reference automaton accepts is accepted, body chunks reach the protocol in order and unchanged (concatenation preserved), end-of-response at most once and one final head for every interleaving, the h11 head is app headers ++ server headers ++ connection: close at the maximum. End-to-end: an independent h11 client recovers status, headers, body and completeness.',
+        design="7/C02",
+        note="Trusted: Coq kernel + vm_compute, translate/py2coq.py, harness (h11rig.py with library proxies, h11gen.py, http1e2e.py, streams.py, sched.py). h11's parser/serialiser are not modelled (received events and returned bytes are recorded oracle values); h11's state machine is modelled (LibH11.v, a port of h11/_state.py) and cross-checked against the real library after every call. HTTP/2 and both-worker coverage of this property comes from the C08/C09/C16 rigs. Open known finding F14 (application queue full at closure) is reported as KNOWN-FINDING.",
+        technique="Coq proof (symbolic execution of the monadic models, exhaustive vm_compute over the h11 state space) + in-Coq differential correspondence",
+    ),
+    "C05": dict(
+        text='Coq theorems: on application exit a complete 500 with connection: close iff nothing had been started, otherwise no end-of-body; the connection is reused only when h11 saw both messages complete (our side reaches DONE only through EndOfMessage), else closed. End-to-end: scripted applications raising / returning at every point; the client parser must see a 500 or a visibly incomplete response and nothing more is served.',
+        design="7/C05",
+        note="Trusted: Coq kernel + vm_compute, translate/py2coq.py, harness (h11rig.py with library proxies, h11gen.py, http1e2e.py, streams.py, sched.py). h11's parser/serialiser are not modelled (received events and returned bytes are recorded oracle values); h11's state machine is modelled (LibH11.v, a port of h11/_state.py) and cross-checked against the real library after every call. HTTP/2 and both-worker coverage of this property comes from the C08/C09/C16 rigs. Open known finding F14 (application queue full at closure) is reported as KNOWN-FINDING.",
+        technique="Coq proof (symbolic execution of the monadic models, exhaustive vm_compute over the h11 state space) + in-Coq differential correspondence",
+    ),
+    "C06": dict(
+        text='Coq theorems over the h11 state-machine model (exhaustive over its 648 states) and the protocol model: a request is parsed only from IDLE and leaves IDLE, nothing but start_next_cycle returns to IDLE, the cycle restarts only from DONE/DONE and never without keep-alive, reuse iff not terminated and both DONE else close (reader released either way), close announced at the request maximum. End-to-end: pipelines x segmentations x application behaviours with byte-offset checks that instance k+1 starts after k complete responses.',
+        design="7/C06",
+        note="Trusted: Coq kernel + vm_compute, translate/py2coq.py, harness (h11rig.py with library proxies, h11gen.py, http1e2e.py, streams.py, sched.py). h11's parser/serialiser are not modelled (received events and returned bytes are recorded oracle values); h11's state machine is modelled (LibH11.v, a port of h11/_state.py) and cross-checked against the real library after every call. HTTP/2 and both-worker coverage of this property comes from the C08/C09/C16 rigs. Open known finding F14 (application queue full at closure) is reported as KNOWN-FINDING.",
+        technique="Coq proof (symbolic execution of the monadic models, exhaustive vm_compute over the h11 state space) + in-Coq differential correspondence",
+    ),
+    "C18": dict(
+        text='Coq theorems: connection: close at keep_alive_max_requests and its consequence in the h11 state machine (no further cycle, no further request), worker recycling exactly when requests > max_requests + jitter for every draw. Correspondence/oracles: keep-alive cap end to end, heads around h11_max_incomplete_size in 1-5 pieces, HTTP/2 limits read back from the library objects, mark_request of both worker contexts against the model.',
+        design="7/C18",
+        note="Trusted: Coq kernel + vm_compute, translate/py2coq.py, harness (h11rig.py with library proxies, h11gen.py, http1e2e.py, streams.py, sched.py). h11's parser/serialiser are not modelled (received events and returned bytes are recorded oracle values); h11's state machine is modelled (LibH11.v, a port of h11/_state.py) and cross-checked against the real library after every call. HTTP/2 and both-worker coverage of this property comes from the C08/C09/C16 rigs. Open known finding F14 (application queue full at closure) is reported as KNOWN-FINDING.",
+        technique="Coq proof (symbolic execution of the monadic models, exhaustive vm_compute over the h11 state space) + in-Coq differential correspondence",
+    ),
 }
 NOT_APPLICABLE = {}
 PENDING_REASON = "check not built yet in this session (planned: Coq model + proof + correspondence, see DESIGN.md section 7)"
